@@ -176,6 +176,7 @@ def check_dynamic(prop, tier, seed):
     seen_gates = set()
     clause_fail = collections.Counter()
     drift = collections.Counter()
+    beyond = collections.Counter()
     samples = []
     per_scn = []
     notes = []
@@ -201,7 +202,9 @@ def check_dynamic(prop, tier, seed):
         if len(samples) < 3 and r.get("sample"):
             samples.append(dict(scenario=r["name"], event=r["sample"][0]))
         for (p, c, i) in r["fails"]:
-            if p == "DRIFT":
+            if p == "BEYOND":
+                beyond[c] += 1
+            elif p == "DRIFT":
                 drift[(r["name"], c)] += 1
             elif p == prop:
                 clause_fail[(r["name"], c)] += 1
@@ -222,7 +225,8 @@ def check_dynamic(prop, tier, seed):
                per_scenario=per_scn,
                failed_clauses={"%s/%s" % k: n for k, n in clause_fail.items()},
                drift_notes={"%s/%s" % k: n for k, n in drift.items()}, notes=notes,
-               gate_classes_never_exercised=["%s/%s" % g for g in ALL_GATES if g not in seen_gates])
+               gate_classes_never_exercised=["%s/%s" % g for g in ALL_GATES if g not in seen_gates],
+               beyond_list_observations=dict(beyond))
     if apa is not None:
         cov["apalache_symbolic_scenario_obligations"] = [dict(obligation=n_, discharged=ok_, seconds=sec_)
                                                         for (n_, ok_, sec_, _) in apa]
